@@ -39,7 +39,10 @@ Excluded by construction:
     for AS is not documented; addresses >= 65536 (outside the data space) must be rejected
   * ADD/SUB #k with an explicit shift 0 and k in 0..255 (short or long form: not decided by TI's syntax)
   * negative addresses, negative values of unsigned long immediates where TI defines the constant as unsigned
-  * NORM without operand, the reserved modification 011
+  * NORM without operand, the reserved modification 011, the spellings *AR0+ / *AR0- (not TI's)
+  * KNOWN: BANZ / BANZD without modification operand (TI: default *-; AS and the golden test t_3205x: *), see
+    proposed/C14/320c5x-banz-default-modification.md
+  * LAMM/SAMM/LMMR/SMMR: as for all direct operands only 0..127 is generated (AS rejects 128.. there)
   * combinations of conditions other than (one of EQ..GEQ) [, OV|NOV] [, C|NC] [, TC|NTC|BIO]; illegal combinations
   * TI's predefined port symbols PA0..PA15, memory-mapped register names
 """
